@@ -37,11 +37,9 @@ def Mem.readByte (m : Mem) (region addr : Nat) : Except String Nat :=
     let b := m.regions.getD s ByteArray.empty
     if addr < b.size then pure (b.get! addr).toNat else throw s!"read outside region {region} at {addr} (size {b.size})"
 
-def Mem.readUnsigned (m : Mem) (region addr n : Nat) : Except String Nat := do
-  let mut v := 0
-  for i in [0:n] do
-    v := v + (← m.readByte region (addr + i)) * 256 ^ i
-  return v
+/-- little-endian unsigned value of `n` bytes (structural fold: `Props/C01.scatter_readback`) -/
+def Mem.readUnsigned (m : Mem) (region addr n : Nat) : Except String Nat :=
+  (List.range n).foldlM (fun v i => do return v + (← m.readByte region (addr + i)) * 256 ^ i) 0
 
 def toSigned (v bits : Nat) : Int := if v ≥ 2 ^ (bits - 1) then (v : Int) - (2 : Int) ^ bits else v
 
@@ -64,25 +62,44 @@ def Mem.modifyRegion (m : Mem) (region : Nat) (f : ByteArray → Except String B
     let b' ← f b
     pure { regions := regions.setIfInBounds s b' }
 
+/-- the coordinates of an `h × w × d` box in NHWC order -/
+def coords3 (h w d : Nat) : List (Nat × Nat × Nat) :=
+  (List.range h).flatMap fun y => (List.range w).flatMap fun x => (List.range d).map fun c => (y, x, c)
+
+/-- the elements of the box a feature-map register set describes, in NHWC order: element `(y, x, c)` is read at
+    `fmAddr fm y x c` (structural, so that `Props/C01.lean` can reason about it: `gatherList_get`) -/
+def gatherList (m : Mem) (fm : FM) : Except String (List Int) :=
+  (coords3 fm.height fm.width fm.depth).mapM fun (y, x, c) => m.readElem fm.region (fmAddr fm y x c) fm.elemBytes fm.signed
+
+/-- what the memory holds for element `(y, x, c)` of a feature map (0 where the read fails) -/
+def memFm (m : Mem) (fm : FM) (y x c : Nat) : Int :=
+  match m.readElem fm.region (fmAddr fm y x c) fm.elemBytes fm.signed with
+  | .ok v => v
+  | .error _ => 0
+
+
 /-- logical NHWC array of the box a feature-map register set describes -/
 def gather (m : Mem) (fm : FM) : Except String (Array Int) := do
-  let mut out : Array Int := Array.mkEmpty (fm.height * fm.width * fm.depth)
-  for y in [0:fm.height] do
-    for x in [0:fm.width] do
-      for c in [0:fm.depth] do
-        out := out.push (← m.readElem fm.region (fmAddr fm y x c) fm.elemBytes fm.signed)
-  return out
+  return (← gatherList m fm).toArray
+
+/-- what a stored element reads back as: the value modulo `2^(8n)`, reinterpreted as signed if the feature map is -/
+def wrapElem (n : Nat) (signed : Bool) (v : Int) : Int :=
+  let u := (v % (2 : Int) ^ (8 * n)).toNat
+  if signed then toSigned u (8 * n) else u
+
+
+/-- one write of `scatter`: element `v` at address `addr`, inside the region -/
+def writeElem (region nbytes : Nat) (b : ByteArray) (addr : Nat) (v : Int) : Except String ByteArray :=
+  if addr + nbytes > b.size then throw s!"write outside region {region} at {addr} (size {b.size})"
+  else pure (putElem b addr nbytes v)
+
+/-- the writes of `scatter` on the bytes of the region, in NHWC order: element `(y, x, c)` of `vals` goes to `fmAddr fm y x c` -/
+def scatterBytes (fm : FM) (vals : Array Int) (b0 : ByteArray) : Except String ByteArray :=
+  (coords3 fm.height fm.width fm.depth).foldlM
+    (fun b (y, x, c) => writeElem fm.region fm.elemBytes b (fmAddr fm y x c) (vals.getD ((y * fm.width + x) * fm.depth + c) 0)) b0
 
 def scatter (m : Mem) (fm : FM) (vals : Array Int) : Except String Mem :=
-  m.modifyRegion fm.region fun b0 => do
-    let mut b := b0
-    for y in [0:fm.height] do
-      for x in [0:fm.width] do
-        for c in [0:fm.depth] do
-          let addr := fmAddr fm y x c
-          if addr + fm.elemBytes > b.size then throw s!"write outside region {fm.region} at {addr} (size {b.size})"
-          b := putElem b addr fm.elemBytes (vals.getD ((y * fm.width + x) * fm.depth + c) 0)
-    return b
+  m.modifyRegion fm.region (scatterBytes fm vals)
 
 /-! ## Side information -/
 
@@ -167,6 +184,20 @@ def addOperands (mode : Nat) (bits16 : Bool) (a b : Int) (opaScale opaShift opbS
   else if mode = 1 then (npuScaleTfl (a * (2 : Int) ^ L) opaScale (opaShift + L), b * (2 : Int) ^ (L - 1))
   else (a * (2 : Int) ^ (L - 1), npuScaleTfl (b * (2 : Int) ^ L) opaScale (opaShift + L))
 
+/-- OFM values of a convolution / depthwise block before the activation clamp, in NHWC order: element
+    `(oy, ox, oc)` is the accumulator of that position (`convAcc` / `dwAcc`) plus the bias of channel `oc`, scaled with the
+    channel's scale record, plus the OFM zero point (pure and structural: `Props/C01.convValues_get`) -/
+def convValues (depthwise : Bool) (H W C : Nat) (ifmAt : Nat → Nat → Nat → Int) (kh kw : Nat)
+    (wAt : Nat → Nat → Nat → Nat → Int) (sy sx dy dx padTop padLeft : Nat) (zp ozp : Int) (rounding : Rounding)
+    (recs : Array ScaleRec) (oh ow od : Nat) : List Int :=
+  (List.range oh).flatMap fun oy => (List.range ow).flatMap fun ox => (List.range od).map fun oc =>
+    let acc := if depthwise then
+        dwAcc H W (fun y x => ifmAt y x oc) kh kw (fun ky kx => wAt oc ky kx 0) sy sx dy dx padTop padLeft zp oy ox
+      else
+        convAcc H W C ifmAt kh kw (fun ky kx ic => wAt oc ky kx ic) sy sx dy dx padTop padLeft zp oy ox
+    let r := recs.getD oc default
+    npuScale rounding (acc + r.bias) r.scale r.shift + ozp
+
 /-! ## Block operations -/
 
 def lo32 (v : Nat) : Nat := v % 4294967296
@@ -193,6 +224,108 @@ def applyActivation (m : Mem) (ctx : Ctx) (b : BlockOp) (v : Int) : Except Strin
     let raw ← m.readByte REGION_SHRAM (ctx.lutBase + (act - 16) * 256 + idx)
     return if b.ofm.signed then toSigned raw 8 else raw
   throw s!"unsupported:activation{act}"
+
+/-- the convolution / depthwise branch of `execBlock`: the OFM values after the activation, in NHWC order. `ifm` is the
+    (possibly upscaled) IFM box of extent `H × W × b.ifm.depth` as an NHWC array. -/
+def convBranch (m : Mem) (ctx : Ctx) (b : BlockOp) (w : Option Weights) (rounding : Rounding) (ifm : Array Int) (H W : Nat) :
+    Except String (List Int) := do
+  let C := b.ifm.depth
+  let od := b.ofm.depth
+  let some w := w | throw "weights of the operation were not supplied"
+  let kh := (b.kernelH - 1) / b.dilationY + 1
+  let kw := (b.kernelW - 1) / b.dilationX + 1
+  -- weights encoded for more output channels than the operation has are accepted only when every channel carries the
+  -- same values (then the assignment of stream positions to channels cannot matter)
+  let chanSize := w.kh * w.kw * w.ic
+  let uniform := (List.range w.oc).all fun o => (List.range chanSize).all fun i => w.vals.getD (o * chanSize + i) 0 == w.vals.getD i 0
+  if w.kh ≠ kh ∨ w.kw ≠ kw ∨ w.oc < od ∨ (w.oc > od ∧ !uniform) then
+    throw s!"supplied weights {w.oc}x{w.kh}x{w.kw}x{w.ic} do not fit kernel {kh}x{kw} depth {od}"
+  if b.kind == .conv ∧ w.ic ≠ C then throw "supplied weights do not fit the IFM depth"
+  if b.kind == .depthwise ∧ (w.ic ≠ 1 ∨ C ≠ od) then throw "depthwise weights / depth mismatch"
+  let recs ← (List.range od).mapM fun c => readScaleRec m b.scales ctx.ncores c
+  let vals := convValues (b.kind == .depthwise) H W C (fun y x c => ifm.getD ((y * W + x) * C + c) 0) kh kw
+    (fun oc ky kx ic => w.at oc ky kx ic) b.strideY b.strideX b.dilationY b.dilationX b.padTop b.padLeft
+    b.ifm.zeroPoint b.ofm.zeroPoint rounding recs.toArray b.ofm.height b.ofm.width od
+  vals.mapM fun v => applyActivation m ctx b (clamp v b.actMin b.actMax)
+
+/-- value of one pooling window before the activation clamp: MAX (`subOp = 0`) or AVERAGE over the valid elements `vals` -/
+def poolValue (b : BlockOp) (rounding : Rounding) (globalScale : Bool) (scale shift : Nat) (vals : List Int) : Except String Int :=
+  match vals with
+  | [] => throw "pooling window without a valid element"
+  | v0 :: rest =>
+    if b.subOp = 0 then pure (rest.foldl max v0 - b.ifm.zeroPoint + b.ofm.zeroPoint)
+    else
+      let s := vals.foldl (fun acc x => acc + (x - b.ifm.zeroPoint)) 0
+      if globalScale then pure (npuScale rounding s scale shift + b.ofm.zeroPoint)
+      else pure (divRoundAway s vals.length + b.ofm.zeroPoint)
+
+/-- the pooling branch of `execBlock`: the OFM values after the activation, in NHWC order -/
+def poolBranch (m : Mem) (ctx : Ctx) (b : BlockOp) (rounding : Rounding) (globalScale : Bool) (ifm : Array Int) (H W : Nat) :
+    Except String (List Int) := do
+  let C := b.ifm.depth
+  if b.subOp > 1 then throw "unsupported:reduce_sum"
+  if b.dilationX ≠ 1 ∨ b.dilationY ≠ 1 then throw "pooling with dilation"
+  let (scale, shift) ← if globalScale then
+      match b.ofmScale with
+      | some s => pure (lo32 s, hi6 s)
+      | none => throw "global scale selected but OFM_SCALE never written"
+    else pure (1, 0)
+  (coords3 b.ofm.height b.ofm.width b.ofm.depth).mapM fun (oy, ox, oc) => do
+    let vals := windowVals H W (fun y x => ifm.getD ((y * W + x) * C + oc) 0) b.kernelH b.kernelW b.strideY b.strideX b.padTop b.padLeft oy ox
+    let v ← poolValue b rounding globalScale scale shift vals
+    applyActivation m ctx b (clamp v b.actMin b.actMax)
+
+/-- second operand of an elementwise block: its NHWC array and extent (a tensor gathered from memory, the scalar of the
+    registers, or nothing for a unary operation) -/
+def ewOperand2 (m : Mem) (b : BlockOp) (regs : RegFile) : Except String (Array Int × Nat × Nat × Nat) :=
+  let ifm2Prec := regs.get0D IFM2_PRECISION 0
+  match b.ifm2, b.ifm2Scalar with
+  | some fm, _ => do pure (← gather m fm, fm.height, fm.width, fm.depth)
+  | none, some s =>
+    let bits := if ifm2Prec / 4 % 4 = 0 then 8 else 16
+    let sv : Int := if ifm2Prec % 2 = 1 then (if bits = 8 then toSigned (s % 256) 8 else s16 s) else (s % 2 ^ bits : Nat)
+    pure (#[sv], 1, 1, 1)
+  | none, none => if elementwiseIsUnary b.subOp then pure (#[], 1, 1, 1) else throw "binary elementwise operation without second operand"
+
+/-- element `(oy, ox, oc)` of the second operand with broadcasting, zero point removed (0 for a unary operation) -/
+def ewX2 (b : BlockOp) (op2 : Array Int × Nat × Nat × Nat) (ifm2Zp : Int) (oy ox oc : Nat) : Int :=
+  if elementwiseIsUnary b.subOp then 0 else
+    op2.1.getD (((if op2.2.1 = 1 then 0 else oy) * op2.2.2.1 + (if op2.2.2.1 = 1 then 0 else ox)) * op2.2.2.2 + (if op2.2.2.2 = 1 then 0 else oc)) 0 - ifm2Zp
+
+/-- value of one elementwise element before the activation clamp; `a`, `bb` are the operands after zero-point removal (and
+    reversal) -/
+def ewValue (b : BlockOp) (rounding : Rounding) (globalScale : Bool) (a bb : Int) : Except String Int :=
+  let opa := b.opaScale.getD 0
+  let opb := b.opbScale.getD 0
+  let ofs := b.ofmScale.getD 1
+  let opToScale := b.ifmPrecision / 256 % 4
+  let ozp := b.ofm.zeroPoint
+  match b.subOp with
+  | 0 => pure (npuScale rounding (a * bb) (lo32 ofs) (hi6 ofs) + ozp)                       -- MUL
+  | 1 | 2 =>                                                                                 -- ADD / SUB
+    if !globalScale then throw "unsupported:add-without-scaling" else
+    let (sa, sb) := addOperands opToScale (b.ifm.elemBytes = 2) a bb (lo32 opa) (hi6 opa) (lo32 opb)
+    pure (npuScale rounding (if b.subOp = 1 then sa + sb else sa - sb) (lo32 ofs) (hi6 ofs) + ozp)
+  | 3 => pure (min a bb + ozp)
+  | 4 => pure (max a bb + ozp)
+  | 5 => pure ((if a ≥ 0 then a else npuScale rounding a (lo32 ofs) (hi6 ofs)) + ozp)      -- LRELU
+  | 6 => pure (npuScale rounding (if a ≥ 0 then a else -a) (lo32 ofs) (hi6 ofs) + ozp)      -- ABS
+  | mode => throw s!"unsupported:elementwise{mode}"
+
+/-- the elementwise branch of `execBlock`: the OFM values after the activation, in NHWC order; `ifm` is the IFM box as an
+    NHWC array of width `W` -/
+def ewBranch (m : Mem) (ctx : Ctx) (b : BlockOp) (regs : RegFile) (rounding : Rounding) (globalScale : Bool) (ifm : Array Int) (W : Nat) :
+    Except String (List Int) := do
+  let C := b.ifm.depth
+  if b.subOp > 6 ∨ b.subOp = 7 then throw s!"unsupported:elementwise{b.subOp}"
+  let reversed := b.ifm2Broadcast / 64 % 2 = 1
+  let ifm2Zp : Int := s16 (regs.get0D IFM2_ZERO_POINT 0)
+  let op2 ← ewOperand2 m b regs
+  (coords3 b.ofm.height b.ofm.width b.ofm.depth).mapM fun (oy, ox, oc) => do
+    let x1 := ifm.getD ((oy * W + ox) * C + oc) 0 - b.ifm.zeroPoint
+    let x2 := ewX2 b op2 ifm2Zp oy ox oc
+    let v ← if reversed then ewValue b rounding globalScale x2 x1 else ewValue b rounding globalScale x1 x2
+    applyActivation m ctx b (clamp v b.actMin b.actMax)
 
 def execBlock (m : Mem) (ctx : Ctx) (b : BlockOp) (regs : RegFile) (w : Option Weights) : Except String Mem := do
   if b.upscale > 2 then throw "reserved upscale mode"
@@ -231,89 +364,11 @@ def execBlock (m : Mem) (ctx : Ctx) (b : BlockOp) (regs : RegFile) (w : Option W
   let mut out : Array Int := Array.mkEmpty (oh * ow * od)
   match b.kind with
   | .conv | .depthwise =>
-    let some w := w | throw "weights of the operation were not supplied"
-    let kh := (b.kernelH - 1) / b.dilationY + 1
-    let kw := (b.kernelW - 1) / b.dilationX + 1
-    -- weights encoded for more output channels than the operation has are accepted only when every channel carries the
-    -- same values (then the assignment of stream positions to channels cannot matter)
-    let chanSize := w.kh * w.kw * w.ic
-    let uniform := (List.range w.oc).all fun o => (List.range chanSize).all fun i => w.vals.getD (o * chanSize + i) 0 == w.vals.getD i 0
-    if w.kh ≠ kh ∨ w.kw ≠ kw ∨ w.oc < od ∨ (w.oc > od ∧ !uniform) then
-      throw s!"supplied weights {w.oc}x{w.kh}x{w.kw}x{w.ic} do not fit kernel {kh}x{kw} depth {od}"
-    if b.kind == .conv ∧ w.ic ≠ C then throw "supplied weights do not fit the IFM depth"
-    if b.kind == .depthwise ∧ (w.ic ≠ 1 ∨ C ≠ od) then throw "depthwise weights / depth mismatch"
-    let recs ← (List.range od).mapM fun c => readScaleRec m b.scales ctx.ncores c
-    let recs := recs.toArray
-    for oy in [0:oh] do
-      for ox in [0:ow] do
-        for oc in [0:od] do
-          let acc := if b.kind == .conv then
-              convAcc H W C ifmAt kh kw (fun ky kx ic => w.at oc ky kx ic) b.strideY b.strideX b.dilationY b.dilationX b.padTop b.padLeft zp oy ox
-            else
-              dwAcc H W (fun y x => ifmAt y x oc) kh kw (fun ky kx => w.at oc ky kx 0) b.strideY b.strideX b.dilationY b.dilationX b.padTop b.padLeft zp oy ox
-          let r := recs.getD oc default
-          let v := npuScale rounding (acc + r.bias) r.scale r.shift + ozp
-          out := out.push (← finish v)
+    out := (← convBranch m ctx b w rounding ifm H W).toArray
   | .pool =>
-    if b.subOp > 1 then throw "unsupported:reduce_sum"
-    if b.dilationX ≠ 1 ∨ b.dilationY ≠ 1 then throw "pooling with dilation"
-    let (scale, shift) ← if globalScale then
-        match b.ofmScale with
-        | some s => pure (lo32 s, hi6 s)
-        | none => throw "global scale selected but OFM_SCALE never written"
-      else pure (1, 0)
-    for oy in [0:oh] do
-      for ox in [0:ow] do
-        for oc in [0:od] do
-          let vals := windowVals H W (fun y x => ifmAt y x oc) b.kernelH b.kernelW b.strideY b.strideX b.padTop b.padLeft oy ox
-          let v ← match vals with
-            | [] => throw "pooling window without a valid element"
-            | v0 :: rest =>
-              if b.subOp = 0 then pure (rest.foldl max v0 - zp + ozp)
-              else
-                let s := vals.foldl (fun acc x => acc + (x - zp)) 0
-                if globalScale then pure (npuScale rounding s scale shift + ozp)
-                else pure (divRoundAway s vals.length + ozp)
-          out := out.push (← finish v)
+    out := (← poolBranch m ctx b rounding globalScale ifm H W).toArray
   | .elementwise =>
-    let mode := b.subOp
-    if mode > 6 ∨ mode = 7 then throw s!"unsupported:elementwise{mode}"
-    let unaryOp := elementwiseIsUnary mode
-    let bc := b.ifm2Broadcast
-    let reversed := bc / 64 % 2 = 1
-    -- second operand
-    let ifm2Zp : Int := s16 (regs.get0D IFM2_ZERO_POINT 0)
-    let ifm2Prec := regs.get0D IFM2_PRECISION 0
-    let (ifm2, h2, w2, d2) ← match b.ifm2, b.ifm2Scalar with
-      | some fm, _ => do pure (← gather m fm, fm.height, fm.width, fm.depth)
-      | none, some s =>
-        let bits := if ifm2Prec / 4 % 4 = 0 then 8 else 16
-        let sv : Int := if ifm2Prec % 2 = 1 then (if bits = 8 then toSigned (s % 256) 8 else s16 s) else (s % 2 ^ bits : Nat)
-        pure (#[sv], 1, 1, 1)
-      | none, none => if unaryOp then pure (#[], 1, 1, 1) else throw "binary elementwise operation without second operand"
-    let opa := b.opaScale.getD 0
-    let opb := b.opbScale.getD 0
-    let ofs := b.ofmScale.getD 1
-    let opToScale := b.ifmPrecision / 256 % 4
-    for oy in [0:oh] do
-      for ox in [0:ow] do
-        for oc in [0:od] do
-          let x1 := ifmAt oy ox oc - zp
-          let x2 : Int := if unaryOp then 0 else
-            ifm2.getD (((if h2 = 1 then 0 else oy) * w2 + (if w2 = 1 then 0 else ox)) * d2 + (if d2 = 1 then 0 else oc)) 0 - ifm2Zp
-          let (a, bb) := if reversed then (x2, x1) else (x1, x2)
-          let v ← match mode with
-            | 0 => pure (npuScale rounding (a * bb) (lo32 ofs) (hi6 ofs) + ozp)                       -- MUL
-            | 1 | 2 =>                                                                                 -- ADD / SUB
-              if !globalScale then throw "unsupported:add-without-scaling" else
-              let (sa, sb) := addOperands opToScale (b.ifm.elemBytes = 2) a bb (lo32 opa) (hi6 opa) (lo32 opb)
-              pure (npuScale rounding (if mode = 1 then sa + sb else sa - sb) (lo32 ofs) (hi6 ofs) + ozp)
-            | 3 => pure (min a bb + ozp)
-            | 4 => pure (max a bb + ozp)
-            | 5 => pure ((if a ≥ 0 then a else npuScale rounding a (lo32 ofs) (hi6 ofs)) + ozp)      -- LRELU
-            | 6 => pure (npuScale rounding (if a ≥ 0 then a else -a) (lo32 ofs) (hi6 ofs) + ozp)      -- ABS
-            | _ => throw s!"unsupported:elementwise{mode}"
-          out := out.push (← finish v)
+    out := (← ewBranch m ctx b regs rounding globalScale ifm W).toArray
   | .dma => throw "dma is not a block operation"
   scatter m b.ofm out
 
